@@ -46,3 +46,21 @@ package keys
 //@   props C19
 //@   ensures err == nil ==> kb_present(address) && decrypt_ok(kb_armor(address), decryptPassphrase)
 //@   ensures kbdb.writes == old(kbdb.writes)
+
+// C19: a key is stored encrypted under exactly the passphrase the caller chose for storage
+//@ func (kb dbKeybase) writeLocalKeyPair(priv crypto.PrivateKey, passphrase, hint string) (kp KeyPair, err error)
+//@   props C19
+//@   modifies kbdb.writes, kbdb.op
+//@   ensures [stored] err == nil ==> decrypt_ok(kp.PrivKeyArmor, passphrase) && (forall p string :: {decrypt_ok(kp.PrivKeyArmor, p)} decrypt_ok(kp.PrivKeyArmor, p) ==> p == passphrase)
+//@   ensures [onewrite] err == nil ==> kbdb.writes == old(kbdb.writes) + 1 && kbdb.op == 1
+//@   ensures [failed] err != nil ==> kbdb.writes == old(kbdb.writes)
+//@
+// C19: importing needs the transport passphrase of the incoming armor; the key is then stored under the storage
+// passphrase (and under no other), and an existing key is never overwritten
+//@ func (kb dbKeybase) ImportPrivKey(armor, decryptPassphrase, encryptPassphrase string) (kp KeyPair, err error)
+//@   props C19
+//@   modifies kbdb.writes, kbdb.op
+//@   keeps *        // address/hex helpers reached through library interfaces and function values touch no modelled state
+//@   ensures [guarded] err == nil ==> decrypt_ok(armor, decryptPassphrase)
+//@   ensures [stored] err == nil ==> decrypt_ok(kp.PrivKeyArmor, encryptPassphrase) && (forall p string :: {decrypt_ok(kp.PrivKeyArmor, p)} decrypt_ok(kp.PrivKeyArmor, p) ==> p == encryptPassphrase)
+//@   ensures [failed] err != nil ==> kbdb.writes == old(kbdb.writes)
